@@ -272,13 +272,16 @@ class ConcurrentExecutor(ABC, Generic[CallableType, ResultType]):
                 for future in futures:
                     future.cancel()
 
-                # A branch or the timer thread died with a system-level exception
-                if self._fatal_exception is not None:
-                    raise self._fatal_exception
+            # The timer thread is stopped now: a resubmission that was refreshing the state while
+            # the decision was taken has either finished or recorded its failure.
 
-                # Suspend execution if everything done and at least one of the tasks raised a suspend exception.
-                if self._suspend_exception:
-                    raise self._suspend_exception
+            # A branch or the timer thread died with a system-level exception
+            if self._fatal_exception is not None:
+                raise self._fatal_exception
+
+            # Suspend execution if everything done and at least one of the tasks raised a suspend exception.
+            if self._suspend_exception:
+                raise self._suspend_exception
 
         finally:
             # Shutdown without waiting for running threads for early return when
